@@ -43,6 +43,8 @@ def run_case(case):
         out.viols = [v for v in out.viols if v.rule.startswith(PREFIX) or v.rule == "unexpected-exception"]
     out.nontrivial = stats["interrupted_after_blocking"] > 0 or stats["op_entered_cancelled"] > 0
     out.labels = [k for k, v in stats.items() if v] + ["config-" + case["config"]]
+    if case.get("pat"):
+        out.labels.append("pattern-" + case["pat"])
     if w is not None and w.latencies:
         out.labels.append("latency-max-%d" % max(w.latencies))
     return out
